@@ -226,6 +226,28 @@ func genSeqPlan(prop string, seed uint64, thorough bool) *Plan {
 				}
 			}
 		}
+		if (prop == "C07" || prop == "C03") && g.chance(12) {
+			// a collection of one element with a deadline, changed in place in a
+			// way that empties it for an instant (rotation onto itself, move of
+			// the only member and back, overwrite of the only field)
+			k := g.key()
+			add([]string{"DEL", k})
+			switch g.r.IntN(3) {
+			case 0:
+				add([]string{"RPUSH", k, g.val()})
+				add([]string{"PEXPIRE", k, "100000"})
+				add(g.pick2([][]string{{"LMOVE", k, k, "LEFT", "RIGHT"}, {"RPOPLPUSH", k, k}, {"LMOVE", k, k, "RIGHT", "RIGHT"}, {"LSET", k, "0", "x"}, {"LINSERT", k, "BEFORE", "nosuch", "y"}}))
+			case 1:
+				add([]string{"SADD", k, "m1"})
+				add([]string{"PEXPIRE", k, "100000"})
+				add(g.pick2([][]string{{"SMOVE", k, k, "m1"}, {"SADD", k, "m1"}, {"SPOP", k, "0"}}))
+			default:
+				add([]string{"HSET", k, "f1", "1"})
+				add([]string{"PEXPIRE", k, "100000"})
+				add(g.pick2([][]string{{"HSET", k, "f1", "2"}, {"HINCRBY", k, "f1", "1"}, {"HINCRBYFLOAT", k, "f1", "0.5"}, {"HSETNX", k, "f1", "3"}}))
+			}
+			add([]string{"PTTL", k})
+		}
 		if prop == "C07" && g.chance(2) || g.chance(8) {
 			// move the clock: a little, or across typical deadlines
 			switch g.r.IntN(6) {
